@@ -281,6 +281,8 @@ def run_C04(ctx):
     # arguments, incl. wells and volumes of different dimensionality), on both devices
     prof = {"p_fail": 0.15, "fail_kinds": ["aspirate", "dispense"], "kinds": ["aspirate", "dispense"], "nops": (1, 10), "p_trough": 0.45}
     progs = [G.gen_worklist_program(rng, prof) for _ in range(ctx.n(100))]
+    # ... also on labware that carry a name the library itself defines (EVOware built-ins such as "Systemliquid")
+    progs += [G.gen_worklist_program(rng, dict(prof, p_library_name=0.5, p_fail=0.0)) for _ in range(ctx.n(40))]
     stateful(ctx, res, "worklist-aspirate-dispense", progs, ["ledger"])
     return res
 
@@ -990,6 +992,15 @@ def run_C10(ctx):
         l = [rng.choice(syms) for _ in range(rng.randint(1, 4))]
         l.insert(rng.randrange(len(l) + 1), rng.choice([("int", 0), ("int", 9), ("member", -1), ("bad", 2.0), ("bad", "x")]))
         args.append(("many", l))
+    # long collections: one tip listed 255 / 256 / 257 / 512 / 65536 times next to others (a counter of a narrow integer
+    # type would wrap to "not selected")
+    for reps in (255, 256, 257, 512, 65536):
+        for _ in range(2):
+            s0, s1 = rng.choice(syms), rng.choice(syms)
+            l = [s0] * reps + [s1]
+            if rng.random() < 0.5:
+                rng.shuffle(l)
+            args.append(("many", l))
     cases = []
     for a in args:
         def call(a=a):
@@ -1054,6 +1065,15 @@ def run_C12(ctx):
                     if rng.random() < (0.15 if ctx.tier == "quick" else 1.0):
                         k = rng.randint(1, min(n, 12))
                         sels.append((R, C, rng.sample(wells, k)))
+    # the same well named more than once (two tips on one well, a list concatenated with itself): the selected SET counts
+    for R, C in [(8, 12), (1, 1), (2, 1), (4, 6), (16, 24), (1, 8), (3, 5)] + [(rng.randint(1, 26), rng.randint(1, 48)) for _ in range(ctx.n(40))]:
+        wells = [(r, c) for c in range(C) for r in range(R)]
+        base = rng.sample(wells, rng.randint(1, min(len(wells), 6)))
+        rep = base + [rng.choice(base) for _ in range(rng.choice([1, 1, 2, 3, 7, 255, 256]))]
+        rng.shuffle(rep)
+        sels.append((R, C, rep))
+        sels.append((R, C, base + base))
+        res.dist["selection with repeated wells"] += 2
     res.exhaustive = True
     res.extra["exhaustive_scope"] = f"all subsets of every geometry with at most {limit} wells"
     cases = []
@@ -2202,6 +2222,51 @@ def plan_exec(plan, stock_conc, dev, max_volume, with_dest, rng):
     return None
 
 
+def _tight_budget_params(rng, tries=30000):
+    """Parameter sets in which the per-well budget of a source column decides by a hair: an independent float re-run of
+    the documented planning rule (round for stock columns, ceil for serial ones, leftmost feasible source) is used as a
+    FILTER only — it keeps candidates where some 'still available - needed' margin lies within a few microlitres of 0."""
+    import math
+    for _ in range(tries):
+        R = rng.choice([1, 2, 3, 4])
+        C = rng.choice([3, 4, 5, 6])
+        stock = float(rng.choice([20, 50, 100]))
+        xmax = stock / rng.choice([2, 4, 5, 10])
+        xmin = xmax / rng.choice([2, 4, 10])
+        vm = [float(rng.choice([1000, 2048, 2500, 3000, 4096, 5000])) for _ in range(C)]
+        minT = float(rng.choice([50, 100, 200, 250]))
+        N = R * C
+        ideal = [xmax + (xmin - xmax) * k / (N - 1) for k in range(N)] if N > 1 else [xmax]
+        col = lambda c: [ideal[c * R + r] for r in range(R)]
+        instr, actual = [], []
+        for c in range(C):
+            vt = [float(round(vm[c] * x / stock)) for x in col(c)]
+            if all(v >= minT for v in vt) and all(v <= vm[c] for v in vt):
+                instr.append(c); actual.append([v / vm[c] * stock for v in vt])
+            else:
+                break
+        avail = [[vm[c]] * R for c in range(C)]
+        tight = False
+        for c in range(len(instr), C):
+            for s in range(len(instr)):
+                vt = [math.ceil(vm[c] * x / a) for x, a in zip(col(c), actual[s])]
+                if all(v >= minT for v in vt) and all(v <= vm[c] for v in vt):
+                    margins = [a - v for a, v in zip(avail[s], vt)]
+                    # (a column that was drawn from before and still holds more than 2048 uL: where a narrow float type
+                    # no longer represents every whole microlitre)
+                    if any(abs(m) <= 2 and a != vm[s] and a > 2048 for m, a in zip(margins, avail[s])):
+                        tight = True
+                    if all(m >= 0 for m in margins):
+                        avail[s] = margins
+                        instr.append(c); actual.append([v * a / vm[c] for v, a in zip(vt, actual[s])])
+                        break
+            else:
+                break
+        if tight:
+            return dict(R=R, C=C, stock=F(stock), xmax=F(xmax), xmin=F(xmin), mode="linear", vmax=[F(v) for v in vm], minT=F(minT))
+    return None
+
+
 def run_C14(ctx):
     import numpy as np
     from robotools import DilutionPlan
@@ -2209,8 +2274,16 @@ def run_C14(ctx):
     rng = ctx.rng
     cases = []
     fragile = 0
-    for _ in range(ctx.n(560)):
+    tight_left = ctx.n(40)
+    for _ in range(ctx.n(560) + tight_left):
         u = rng.random()
+        tp = None
+        if tight_left > 0 and _ >= ctx.n(560):
+            tight_left -= 1
+            tp = _tight_budget_params(rng)
+            if tp is None:
+                continue
+            u = 0.0
         stress = u < 0.5
         coarse = 0.5 <= u < 0.7
         res.dist["dilution:budget-stress" if stress else "dilution:coarse-stock" if coarse else "dilution:general"] += 1
@@ -2237,6 +2310,9 @@ def run_C14(ctx):
             mode = "linear" if rng.random() < 0.85 else "log"
             vmax = F(rng.choice([100, 200, 150])) if rng.random() < 0.8 else [F(rng.choice([100, 200, 150])) for _ in range(C)]
             minT = F(rng.choice([10, 15, 20, 25, 30, 40]))
+            if tp is not None:
+                R, C, stock, xmax, xmin, mode, vmax, minT = (tp[k] for k in ("R", "C", "stock", "xmax", "xmin", "mode", "vmax", "minT"))
+                res.dist["dilution:budget of a reused source decided within 2 uL (filtered)"] += 1
         else:
             R = rng.choice([1, 2, 3, 4, 8, 16]) if rng.random() < 0.8 else rng.randint(1, 16)
             C = rng.choice([1, 2, 3, 4, 6, 12, 24]) if rng.random() < 0.8 else rng.randint(1, 24)
@@ -2250,12 +2326,25 @@ def run_C14(ctx):
             minT = F(rng.choice([1, 5, 10, 20, 30, 60]))
         kw = dict(xmin=float(xmin), xmax=float(xmax), R=R, C=C, stock=float(stock), mode=mode,
                   vmax=float(vmax) if not isinstance(vmax, list) else [float(v) for v in vmax], min_transfer=float(minT))
+        if rng.random() < (0.3 if tp is None else 0.7):
+            # vmax handed over as a numpy array of a narrower / integer type (what a labware definition table gives):
+            # values exactly representable in that type, incl. deep-well volumes >= 2048 where float16 has steps of 2..4
+            dt = rng.choice([np.float16, np.float16, np.float32, np.int64, np.int32, np.uint16] if tp is None else [np.float16, np.float16, np.float32])
+            if stress and tp is None and rng.random() < 0.7:
+                vmax = [F(rng.choice([1000, 2048, 3000, 4096, 5000])) for _ in range(C)]
+                minT = F(rng.choice([10, 20, 50]))
+                kw["min_transfer"] = float(minT)
+            vl = [vmax] * C if not isinstance(vmax, list) else vmax
+            if all(F(float(dt(float(v)))) == v for v in vl):
+                vmax = list(vl)
+                kw["vmax"] = np.array([float(v) for v in vl], dtype=dt)
+                res.dist[f"dilution:vmax as {np.dtype(dt).name} array"] += 1
         plan, err = None, None
         try:
             plan = DilutionPlan(**kw)
         except Exception as e:  # noqa: BLE001
             err = impl.classify(e)
-        case = {"kind": "fn", "fn": "DilutionPlan", "args": {k: (v if not isinstance(v, float) else F(v)) for k, v in kw.items()}}
+        case = {"kind": "fn", "fn": "DilutionPlan", "args": {k: (F(v) if isinstance(v, float) else f"{v.dtype.name}{v.tolist()}" if isinstance(v, np.ndarray) else v) for k, v in kw.items()}}
         msg = None
         # ideal targets as the implementation computed them (inputs of the model)
         if mode == "log":
